@@ -338,6 +338,8 @@ asn1c_lang_C_type_SEQUENCE(arg_t *arg) {
         if(emit_ioc_table(arg, expr, ioc_tao)) {
             return -1;
         }
+        /* emit_ioc_table() leaves the output redirected to OT_IOC_TABLES */
+        REDIR(saved_target);
     } else if(ioc_tao.fatal_error) {
         return -1;
     }
